@@ -153,10 +153,10 @@ def parse_errors(stderr, gen_text, fname):
     return sem, other
 
 
-def run_verus(path):
+def run_verus(path, extra=()):
     t0 = time.time()
     try:
-        p = subprocess.run([VERUS, path, "--output-json", "--time", "--rlimit", RLIMIT, "--multiple-errors", "20"],
+        p = subprocess.run([VERUS, path, "--output-json", "--time", "--rlimit", RLIMIT, "--multiple-errors", "20"] + list(extra),
                            capture_output=True, text=True, timeout=600)
     except subprocess.TimeoutExpired:
         return None, "verus timeout (600 s)", time.time() - t0
@@ -222,6 +222,26 @@ def unit_loop_counts(text):
     return out
 
 
+CLOSURE_RX = re.compile(r"(?:(?<=[(,=])|(?<=\bmove))\s*\|[^|\n]*\|")
+
+
+def unit_closure_counts(text):
+    """{qualified fn name: number of closure literals in its body} for the unit part of a generated file
+    (contract text between signature and body is not counted: quantifier binders look like closures)"""
+    marker_line = text[: text.find("// ===== unit text")].count("\n")
+    masked = extract.mask_trivia(text).split("\n")
+    out = {}
+    for (s, e, q) in fn_index(text):
+        if s > marker_line:
+            seg = masked[s - 1:e]
+            # body starts at the first line that is exactly "{"
+            b0 = next((k for k, l_ in enumerate(seg) if l_.startswith("{")), 0)
+            body = "\n".join(seg[b0:])
+            body = re.sub(r"\b(assert|invariant|ensures|requires|decreases)\b[^;]*;", "", body)
+            out[q] = out.get(q, 0) + len(CLOSURE_RX.findall(body))
+    return out
+
+
 def reclassify_unknown_callees(res, text, tag):
     """A function that the contracts have never seen (e.g. a helper a refactoring extracted) has no
     contract, so its callers cannot be proved whatever it does: a failure in a function that calls
@@ -230,6 +250,7 @@ def reclassify_unknown_callees(res, text, tag):
     if inv is None:
         return
     if isinstance(inv, dict):
+        inv_all = inv
         loops0 = inv.get("loops", {})
         inv = inv.get("functions", [])
         # loop contracts are attached by ordinal: when a function's number of loops differs from what
@@ -245,6 +266,20 @@ def reclassify_unknown_callees(res, text, tag):
             res.setdefault("needs_contract", []).extend(
                 "%s (%s; its loop structure changed: %d loops, the loop contracts were written for %d)" % (
                     f["function"], f["kind"], now[f["function"]], loops0[f["function"]]) for f in moved_)
+        # closures: Verus knows a closure only through its (inferred) specification, and what a closure does
+        # through a `&mut` parameter is lost — a function that GAINED a closure literal (e.g. `opt.and_then(|d|
+        # d.queue.pop_front())` replacing an `if let`) cannot be proved whatever it does: no verdict from its
+        # proof obligations (probe obligations, decided by the borrow checker, are not affected)
+        clos0 = inv_all.get("closures")
+        if clos0 is not None:
+            cnow = unit_closure_counts(text)
+            gained = [q for q, n_ in cnow.items() if q in clos0 and n_ > clos0[q]]
+            moved_ = [f for f in res["failures"] if f["function"] in gained and not f.get("tags")]
+            if moved_:
+                res["failures"] = [f for f in res["failures"] if f not in moved_]
+                res.setdefault("needs_contract", []).extend(
+                    "%s (%s; the function gained a closure the contracts do not know: %d, was %d)" % (
+                        f["function"], f["kind"], cnow[f["function"]], clos0[f["function"]]) for f in moved_)
     unknown = [q for q in unit_fn_names(text) if q not in inv]
     if not unknown:
         return
@@ -355,12 +390,16 @@ def run_unit(unit_name, template_rel, variant):
         res["undecided"] = "resource limit exceeded"
         return res
     failed_fns = [k for k, v in res["functions"].items() if not v["ok"]]
+    pending_undecided = None
     if res.get("needs_contract") and not sem:
-        res["status"] = "undecided"
-        res["undecided"] = ("no verdict (needs contract): %s%s" % ("; ".join(res["needs_contract"]),
-                            (" — functions unknown to the contracts: " + ", ".join(res["unknown_functions"])) if res.get("unknown_functions") else ""))
-        return res
-    if sem or failed_fns or not vr.get("success", False):
+        pending_undecided = ("no verdict (needs contract): %s%s" % ("; ".join(sorted(set(res["needs_contract"]))),
+                             (" — functions unknown to the contracts: " + ", ".join(res["unknown_functions"])) if res.get("unknown_functions") else ""))
+        if ptext is None:
+            res["status"] = "undecided"
+            res["undecided"] = pending_undecided
+            return res
+        # the probe obligations (decided by the borrow checker, not by the solver) are still evaluated below
+    if pending_undecided is None and (sem or failed_fns or not vr.get("success", False)):
         if not sem:
             res["status"] = "undecided"
             res["undecided"] = "verus reported failure without a located semantic error"
@@ -371,14 +410,19 @@ def run_unit(unit_name, template_rel, variant):
         res["undecided"] = "zero obligations generated"
         return res
     if res["status"] == "ok" and (stats or {}).get("yield_points_missing"):
-        res["status"] = "undecided"
-        res["undecided"] = "yield point(s) no longer found, the re-entry obligation could not be placed: " + "; ".join(stats["yield_points_missing"])
-        return res
+        why_ = "yield point(s) no longer found, the re-entry obligation could not be placed: " + "; ".join(stats["yield_points_missing"])
+        pending_undecided = why_ if pending_undecided is None else pending_undecided + "; " + why_
+        if ptext is None:
+            res["status"] = "undecided"
+            res["undecided"] = pending_undecided
+            return res
     # borrow probes: lock-scope obligations discharged by the borrow checker
     if ptext is not None and res["status"] != "undecided":
         ppath = os.path.join(BUILD, crate + "__probe.rs")
         open(ppath, "w").write(ptext)
-        pj, perr, pw = run_verus(ppath)
+        # type, mode and LIFETIME (borrow) checking only: the proof obligations of this text are decided on
+        # the normal file, here only the borrow checker's answer at the probe lines is wanted
+        pj, perr, pw = run_verus(ppath, ["--no-verify"])
         plines = ptext.split("\n")
         probes = []
         pidx = fn_index(ptext)
@@ -433,6 +477,10 @@ def run_unit(unit_name, template_rel, variant):
                 res["status"] = "violated"
         if res["status"] == "undecided":
             return res
+    if pending_undecided is not None and res["status"] != "violated":
+        res["status"] = "undecided"
+        res["undecided"] = pending_undecided
+        return res
     # canary: every contracted function must fail when `false` is added to its postcondition
     cj, cerr, cw = run_verus(cpath)
     expected = len(re.findall(r"assert\(false\); // CANARY", ctext))
@@ -469,7 +517,7 @@ if __name__ == "__main__":
             for v in extract.variants_of(open(f).read()):
                 tag = name + ("" if not v else "." + "_".join(list(v.values())[:2]))
                 text, _ = extract.generate(f, v, canary=False)
-                inv[tag] = dict(functions=unit_fn_names(text), loops=unit_loop_counts(text))
+                inv[tag] = dict(functions=unit_fn_names(text), loops=unit_loop_counts(text), closures=unit_closure_counts(text))
         json.dump(inv, open(INVENTORY_PATH, "w"), indent=0, sort_keys=True)
         print("inventory written:", len(inv), "unit-variants,", sum(len(x["functions"]) for x in inv.values()), "functions")
         sys.exit(0)
